@@ -24,6 +24,7 @@
      (the five local repairs: notify per element, wake at push, unregister on service, no blocking in EXEC, key de-duplication).
 -/
 import FerrousSpec.Proofs.BlockingRun
+import FerrousSpec.Proofs.BlockingFixRun
 import FerrousSpec.Proofs.BlockingFifo
 import FerrousSpec.Gen.Blocking
 namespace Ferrous.C13
@@ -133,6 +134,90 @@ theorem timeout_fires_partial (q : Quirks) (evs : List Event) (h : Allowed q evs
     the registry/wake-queue/connection-state triple never disagrees (the invariant of DESIGN D3). -/
 theorem invariant_partial (q : Quirks) (evs : List Event) (h : Allowed q evs) : Inv (run q evs) :=
   Inv_run q evs h
+
+/-! ## 3b. The tree as it is now: the `_fixed_partial` theorems
+
+  With the five repairs in (`Repaired q`: one notification per pushed element, wake-ups carried out right after the
+  command that requested them, a served client unregistered from all its keys, no blocking inside EXEC, a key
+  named twice waited on once) every full statement holds for ALL histories that satisfy the much weaker
+  decidable predicate `AllowedFixed`: any number of keys per blocking pop (duplicates included), any number of
+  pushed elements up to the drain bound, pops anywhere (pipelined behind a push, inside EXEC, …), blocking pops
+  inside MULTI/EXEC, time-outs, hang-ups of clients that are not blocked.  What `AllowedFixed` still excludes is
+  exactly what is still open in the code:
+  * a hang-up WHILE blocked — the hang-up goes unnoticed (`noticeBlockedHangup` off) and, even when noticed, an
+    element pushed before the server looks is lost under every design (`conservation_fails_disconnect_in_flight_even_fixed`);
+  * a blocking pop executed for a connection that is already blocked, i.e. pipelined behind a blocking pop that
+    blocked (finding C13-pipelined-second-bpop; cannot occur once `deferBatchWhenBlocked` is on: the exclusion is
+    then vacuous, the batch stops at the first blocking pop that blocks);
+  * a push of more than `wakeBatch` = 32 elements (finding C13-wake-batch-overflow: the drain after a command
+    carries out one batch; dropped from the predicate once `drainAll` is on).
+  Proof: induction over the event list with the multi-key invariant `InvB` (Proofs/BlockingFix*.lean). -/
+
+/-- The switches regenerated from the source on this run have the five repairs on: the theorems below speak
+    about the current tree.  (Breaks, by design, if a repair is reverted.) -/
+theorem sourceQuirks_repaired : Repaired sourceQuirks := by decide
+
+theorem invariant_fixed_partial (q : Quirks) (hq : Repaired q) (evs : List Event) (h : AllowedFixed q evs) :
+    InvB (run q evs) := InvB_run q hq evs h
+
+/-- Conservation: nothing pushed is ever lost — multi-key waits, multi-element pushes, any interleaving of pops. -/
+theorem conservation_fixed_partial (q : Quirks) (hq : Repaired q) (evs : List Event) (h : AllowedFixed q evs) :
+    (run q evs).pushed.Perm (delivered (run q evs) ++ (run q evs).store) := by
+  have hA := accounting q evs
+  rw [(InvB_run q hq evs h).inv.lost] at hA
+  simpa using hA
+
+/-- Between events the wake queue is empty (every wake-up has been carried out)… -/
+theorem wake_queue_empty_fixed_partial (q : Quirks) (hq : Repaired q) (evs : List Event) (h : AllowedFixed q evs) :
+    (run q evs).wakeQ = [] := (InvB_run q hq evs h).quiet
+
+/-- …and no blocked client has an element waiting under any of its keys. -/
+theorem no_stranded_fixed_partial (q : Quirks) (hq : Repaired q) (evs : List Event) (h : AllowedFixed q evs)
+    (c : Conn) (k : Key) (hb : blockedOn (run q evs) c k) : listOf (run q evs).store k = [] :=
+  (InvB_run q hq evs h).not_stranded hb
+
+/-- A connection is in the registry queue of `k` iff it is blocked on `k` — for each of its keys. -/
+theorem registry_iff_blocked_fixed_partial (q : Quirks) (hq : Repaired q) (evs : List Event) (h : AllowedFixed q evs)
+    (c : Conn) (k : Key) : inRegistry (run q evs) k c ↔ blockedOn (run q evs) c k :=
+  (InvB_run q hq evs h).registry_iff c k
+
+/-- Served or timed out, a client is named by no queue. -/
+theorem no_leftover_registration_fixed_partial (q : Quirks) (hq : Repaired q) (evs : List Event) (h : AllowedFixed q evs)
+    (c : Conn) (hb : ((run q evs).conns c).blocked = none) : c ∉ line (run q evs) :=
+  (InvB_run q hq evs h).no_leftover hb
+
+/-- The deadline scan releases a client only at or after the deadline of the call it is blocked in. -/
+theorem never_early_nil_fixed_partial (q : Quirks) (hq : Repaired q) (evs : List Event) (h : AllowedFixed q evs)
+    (now : Nat) (c : Conn) (b : Blocked) (hb : ((run q evs).conns c).blocked = some b)
+    (hn : ((step q (run q evs) (.timeouts now)).conns c).blocked = none) : ∃ d, b.deadline = some d ∧ d ≤ now :=
+  (InvB_run q hq evs h).never_early_nil now c b hb hn
+
+/-- And it does release it: after the scan at `now` no client whose deadline has passed is still blocked. -/
+theorem timeout_fires_fixed_partial (q : Quirks) (hq : Repaired q) (evs : List Event) (h : AllowedFixed q evs)
+    (now : Nat) (c : Conn) (b : Blocked) (d : Nat) (hb : ((run q evs).conns c).blocked = some b)
+    (hd : b.deadline = some d) (hle : d ≤ now) :
+    ((step q (run q evs) (.timeouts now)).conns c).blocked = none :=
+  (InvB_run q hq evs h).timeout_fires now c b d hb hd hle
+
+/-! ### Non-vacuity of `AllowedFixed` (on the switches read from the source) -/
+
+/-- a multi-key wait served from its SECOND key; a 3-element push serving two waiters; `RPUSH k x; LPOP k`
+    pipelined while a client waits on `k`; a duplicate key; BLPOP inside MULTI/EXEC; a multi-key time-out -/
+def sampleFixed : List Event :=
+  [ .conn 3 0 [.bpop .left [ka, kb] 0], .conn 2 5 [.push .right kb [[1]]],
+    .conn 3 10 [.bpop .left [ka, ka] 0], .conn 4 15 [.bpop .right [ka] 0], .conn 2 20 [.push .right ka [[2], [3], [4]]],
+    .conn 5 25 [.bpop .left [kb, ka] 300], .conn 2 30 [.push .right kb [[5]], .pop .left kb],
+    .conn 2 35 [.multi, .bpop .left [kb] 0, .push .left kb [[6]], .bpop .left [kb] 0, .exec],
+    .conn 6 40 [.bpop .right [kb, ka] 100], .wakeups, .timeouts 200 ]
+
+example : AllowedFixed sourceQuirks sampleFixed := by decide
+example : AllowedFixed Quirks.fixed sampleFixed := by decide
+example : ¬ Allowed sourceQuirks sampleFixed := by decide
+example : (run sourceQuirks sampleFixed).out =
+    [(2, .int 1), (3, .pair kb [1]), (2, .int 3), (3, .pair ka [2]), (4, .pair ka [4]),
+     (2, .int 1), (5, .pair ka [3]), (2, .int 1), (2, .bulk kb [5]),
+     (2, .ok), (2, .queued), (2, .queued), (2, .queued), (2, .arrHdr 3), (2, .nilArr), (2, .int 1), (2, .pair kb [6]),
+     (6, .nilArr)] := by decide
 
 /-! ### Non-vacuity: `Allowed` admits blocking, waking, timing out, pipelines, MULTI/EXEC and disconnects -/
 
